@@ -28,6 +28,10 @@ SCRIPT = [{"a": "AddFile", "n": "I", "blob": "h2049"}, {"a": "AddFile", "n": "E"
           {"a": "AddFile", "n": "M", "blob": "m100"}, {"a": "AddEltorito", "f": "I", "spec": P4B},
           {"a": "AddEltorito", "f": "E", "spec": EFI}, {"a": "AddEltorito", "f": "M", "spec": EFI},
           {"a": "AddIsohybrid", "spec": HYB}]
+# BIOS hybrid whose boot file has a second ISO9660 name (hard link) made before add_eltorito
+HYB_BIOS = dict(HYB, mac=False, efi="none")
+SCRIPT_LINK = [{"a": "AddFile", "n": "I", "blob": "h2049"}, {"a": "AddLink", "n": "I"},
+               {"a": "AddEltorito", "f": "I", "spec": P4B}, {"a": "AddIsohybrid", "spec": HYB_BIOS}]
 
 
 def put(data, off, b):
@@ -61,6 +65,23 @@ def corruptions_efi(data):
         fix_gpt_crcs(put(data, pe + 128 + 32, struct.pack('<Q', h['gpt']['primary']['entries'][1]['first'] + 4)), 1)
     yield 'GPT EFI partition last LBA (CRCs recomputed)', ['EfiPartitionDelimitsItsSection', 'PrimaryBackupMirror.Extents'], \
         fix_gpt_crcs(put(data, pe + 128 + 40, struct.pack('<Q', h['gpt']['primary']['entries'][1]['last'] - 1)), 1)
+
+
+def corruptions_link(data):
+    """the alias of the boot file is part of what C11 expects; the MBR address is judged as in the seeded change C12-m2"""
+    e = dec_elt.decode(data)
+    h = dec_hyb.decode(data)
+    ident = L.ALIAS['I']['iso'].encode()
+    root = e['pvd']['root_extent'] * 2048
+    pos = data.index(ident, root, root + e['pvd']['root_len']) - 33      # start of the alias' directory record
+    ext = struct.unpack_from('<L', data, pos + 2)[0]
+    assert ext == e['entries'][0]['rba']
+    yield 'extent of the second name of the boot file (+1)', ['LoadRbaIsWhereBootBytesStart', 'FilesAsExpected'], \
+        put(data, pos + 2, struct.pack('<L', ext + 1))
+    yield 'second name of the boot file renamed', ['LoadRbaIsWhereBootBytesStart', 'FilesAsExpected'], \
+        put(data, pos + 33, b'X' + ident[1:])
+    yield 'MBR boot file address points past the boot file', ['RbaIsFourTimesBootSector'], \
+        put(data, 432, struct.pack('<L', h['mbr']['rba'] + 8))
 
 
 def repairs(data):
@@ -156,7 +177,10 @@ def main():
     r2 = L.run_history(hist2, 'plain', want_hybrid=True, keep_image=True)
     bad = 0
     ncases = 0
-    for (tag, hh, rr, gen) in (('mac', hist, r, corruptions), ('efi', hist2, r2, corruptions_efi)):
+    hist3 = L.oracle([SCRIPT_LINK])[0]
+    assert all(s['out'] == 'ok' for s in hist3['h']) and hist3['exp']['entries'][0]['alias']
+    r3 = L.run_history(hist3, 'plain', want_hybrid=True, keep_image=True)
+    for (tag, hh, rr, gen) in (('mac', hist, r, corruptions), ('efi', hist2, r2, corruptions_efi), ('link', hist3, r3, corruptions_link)):
         cases = list(gen(rr['image']))
         ncases += len(cases)
         items = [observe(hh, 'plain', rr['item'], rr['image'], 'base')]
@@ -179,7 +203,11 @@ def main():
             items = [observe(hh, 'plain', rr['item'], d, 'r%d' % n) for n, (_, _, d) in enumerate(reps)]
             g12, _, _ = L.judge_items('Judge_C12', items)
             for n, (what, clause, _) in enumerate(reps):
-                ok = clause in base_fail and clause not in g12.get('r%d' % n, [])
+                if clause not in base_fail:
+                    # the defect this repair undoes has been fixed in the tree under test
+                    print('n/a  repair: %-54s -> %s already holds on the unrepaired image' % (what, clause))
+                    continue
+                ok = clause not in g12.get('r%d' % n, [])
                 print('%-4s repair: %-54s -> %s no longer fails' % ('ok' if ok else 'FAIL', what, clause))
                 bad += 0 if ok else 1
     cases = [None] * ncases
